@@ -42,7 +42,7 @@ def main():
             line = line.strip()
             if not line:
                 continue
-            enc, hx = line.split(' ', 1)
+            enc, _, hx = line.partition(' ')
             del EVENTS[:]
             out = {}
             try:
